@@ -12,8 +12,9 @@ import copy
 from collections import deque
 
 from .interp import AbsRaise, Chooser, Interp, PathAbort
+from .values import Unsupported
 from .values import (
-    App, ClassV, DictV, Ext, FuncV, LazyV, Lin, ListOf, ListV, Obj, Sym, SymStr, UNRESOLVED, BuiltinV, Cond,
+    App, BoundMethod, ClassV, DictV, Ext, FuncV, LazyV, PartialV, Lin, ListOf, ListV, Obj, Sym, SymStr, UNRESOLVED, BuiltinV, Cond,
 )
 
 
@@ -255,11 +256,18 @@ def canon(root):
             return ("ext", v.path)
         if isinstance(v, (FuncV, BuiltinV)):
             return repr(v)
+        if isinstance(v, PartialV):
+            return ("partial", c(v.func), tuple(c(x) for x in v.args), tuple((k, c(x)) for k, x in sorted(v.kwargs.items())))
+        if isinstance(v, BoundMethod):
+            return ("bound", c(v.func), c(v.self_obj))
         from fractions import Fraction
 
         if isinstance(v, Fraction):
             return ("q", v.numerator, v.denominator)
-        return repr(v)
+        r = repr(v)
+        if " at 0x" in r:
+            raise Unsupported(f"canonical form of {type(v).__name__} would depend on an address")
+        return r
 
     return c(root)
 
